@@ -340,8 +340,15 @@ func runC12(c *Ctx) {
 	}
 
 	// ---- R5 locks
+	c12Locks(c, p, "R5", reset, sample, reach)
+}
+
+// c12Locks: Reset and Sample are each one critical section (shared with C09:
+// the client's reader goroutine re-seeds the distributions while its writer
+// goroutine samples them).
+func c12Locks(c *Ctx, p *Prog, rule string, reset, sample *ssa.Function, reach map[*ssa.Function]bool) {
 	for _, fn := range []*ssa.Function{reset, sample} {
-		ob := c.Obl("R5", p.FuncKey(fn)+"#single-critical-section", "the method locks the distribution's mutex once, defers the unlock, and every access to the tables follows the lock: concurrent Reset (reader goroutine) and Sample (writer goroutine) never see half-built tables")
+		ob := c.Obl(rule, p.FuncKey(fn)+"#single-critical-section", "the method locks the distribution's mutex once, defers the unlock, and every access to the tables follows the lock: concurrent Reset (reader goroutine) and Sample (writer goroutine) never see half-built tables")
 		var lock *ssa.Call
 		nl, nd, nu := 0, 0, 0
 		allInstrs(fn, func(in ssa.Instruction) {
@@ -385,8 +392,8 @@ func runC12(c *Ctx) {
 		}
 	}
 	// helpers only called from Reset
-	ob = c.Obl("R5", "common/probdist#helpers-under-lock", "the table generators are unexported and called only from Reset (after its lock)")
-	bad = ""
+	ob := c.Obl(rule, "common/probdist#helpers-under-lock", "the table generators are unexported and called only from Reset (after its lock)")
+	bad := ""
 	for fn := range reach {
 		if fn == reset || fn.Signature.Recv() == nil {
 			continue
